@@ -36,6 +36,10 @@ def used_names(action):
     return names
 
 
+REQS = [[":adl"], [":adl", ":fluents"], [":typing", ":strips"], [":strips", ":equality", ":typing", ":fluents", ":conditional-effects"],
+        [":factored-privacy", ":adl"]]
+
+
 def fragment(dom, action_names, extra_names, extra_types=(), extra_consts=()):
     """Sub-domain closed under what the chosen actions use."""
     acts = [a for a in dom["actions"] if a["name"] in action_names]
@@ -159,6 +163,10 @@ def check_case(case):
     union_names = set()
     for f in frags:
         union_names |= {p[0] for p in f["predicates"]} | {p[0] for p in f["functions"]}
+    # every agent file spells its requirements in its own legitimate way (:adl implies :typing, ...)
+    for f_, r_ in zip(frags, case.get("reqs") or []):
+        if r_ is not None:
+            f_["requirements"] = REQS[r_ % len(REQS)]
     expected = fragment(dom, covered, union_names)
     exp_types = set()
     for f in frags:
@@ -377,6 +385,9 @@ def gen(ch, tier):
     side = ch.side("obj-decl")
     if side.flag(0.5):
         case["obj_decl"] = side.int(0, 10 ** 6)
+    side = ch.side("reqs")
+    if side.flag(0.5):
+        case["reqs"] = [side.int(0, len(REQS) - 1) if side.flag(0.6) else None for _ in range(n)]
     return case
 
 
